@@ -247,6 +247,12 @@ def register_strings(reg):
 
 
 def register_tree(reg):
+    @reg.specfun("virt_value")
+    def virt_value(ex, st, args, cx):
+        w, o, V = ex.w, ex.o, ex.w.V
+        getter = st.rd("VirtualField.getter", o.r(args[0]))
+        return SV(w.fun("usercall1_res", "V", "V", "V")(getter, args[1].e))
+
     @reg.specfun("fval")
     def fval(ex, st, args, cx):
         """value a field reads from a configuration: a virtual field's getter result, the stored datum otherwise"""
